@@ -58,7 +58,11 @@ def run_impl(case):
                 fr = np.uint64(fr)
             if nt == "w32" and -(1 << 31) <= w < (1 << 31):
                 w = np.int32(w)
-            v = X.from_tuple(bt.TimeValueTuple(w, fr))
+            if case.get("ctor"):
+                # TimeDelta(<integer seconds>): the same value as from_tuple((seconds, 0))
+                v = bt.TimeDelta(w)
+            else:
+                v = X.from_tuple(bt.TimeValueTuple(w, fr))
             if type(v.ticks) is not int:
                 raise RuntimeError("ticks is a %s" % type(v.ticks).__name__)
             return v.ticks
@@ -205,6 +209,10 @@ def gen_cases(rng, tier):
         w = rng.choice([-(1 << 63) - 1, -(1 << 63), (1 << 63) - 1, 1 << 63, rng.randrange(-(1 << 65), 1 << 65)])
         f = rng.choice([-1, 0, T64 - 1, T64, rng.randrange(-(1 << 10), 1 << 66)])
         cases.append({"k": "from_tuple", "dt": rng.random() < 0.5, "w": w, "f": f})
+    # the integer-seconds constructor, seconds as Python int and as NumPy scalars
+    for _ in range(120 if tier == "quick" else 2000):
+        w = rng.choice([0, 1, -1, 5, 86400, (1 << 63) - 1, -(1 << 63), 1 << 63, -(1 << 63) - 1, rng.randrange(-(1 << 64), 1 << 64)])
+        cases.append({"k": "from_tuple", "dt": False, "w": w, "f": 0, "ctor": True, "np": rng.choice([None, "w", "w", "w32"])})
     # arrays
     inr = battery(False)
     paths = ["iter", "index", "negindex", "slice", "setitem", "setslice", "insert", "extend", "append", "pickle", "deepcopy",
